@@ -158,6 +158,15 @@ func changeField(r *wm.Rec, i int, spec wm.FieldSpec) bool {
 			f.APL = []wm.APLItem{{Family: 1, Prefix: 8, Afd: []byte{10}}}
 		}
 	case wm.Params:
+		// prefer changing a value in place (same key, same length)
+		for j, o := range f.Opts {
+			if (o.Code == 3 || o.Code == 4 || o.Code == 5 || o.Code == 7 || o.Code >= 9) && len(o.Data) > 0 {
+				d := append([]byte(nil), o.Data...)
+				d[len(d)-1] ^= 0x01
+				f.Opts[j].Data = d
+				return true
+			}
+		}
 		if n := len(f.Opts); n > 0 && f.Opts[n-1].Code == 65000 {
 			f.Opts = f.Opts[:n-1]
 		} else if n > 0 && f.Opts[n-1].Code > 65000 {
